@@ -811,6 +811,50 @@ pub fn gen_script(rng: &mut Rng, ctx: &Ctx, mix: &Mix, max_len: usize, end: EndS
             });
         }
     }
+    if mix.step > 0 && mix.break_add > 0 && mix.cont > 0 && rng.chance(1, 5) {
+        // Run to a call site (preferably one that sits inside a subroutine, or whose callee
+        // does not return to the word after the call) and step over it there
+        let offsets = ctx.program.offsets();
+        let sites: Vec<(u16, bool)> = ctx
+            .program
+            .stmts
+            .iter()
+            .zip(offsets.iter())
+            .filter(|(s, _)| {
+                let t = s.text.to_ascii_lowercase();
+                t.starts_with("jsr ") || t.starts_with("jsrr ") || t.starts_with("call ")
+            })
+            .map(|(s, o)| (ctx.program.origin().wrapping_add(*o as u16), s.text.contains("Ia_")))
+            .collect();
+        // A slot the program overwrites after its first execution: pause there on the first and
+        // on the second visit, then step
+        let slots: Vec<u16> = ctx
+            .program
+            .stmts
+            .iter()
+            .zip(offsets.iter())
+            .filter(|(s, _)| s.text == ".fill x0155")
+            .map(|(_, o)| ctx.program.origin().wrapping_add(*o as u16))
+            .collect();
+        if !slots.is_empty() && rng.chance(1, 2) {
+            let addr = *rng.pick(&slots);
+            for cmd in [Cmd::BreakAdd(Loc::Abs(addr as i64)), Cmd::Continue, Cmd::Continue, Cmd::Step, Cmd::Step] {
+                items.push(Item {
+                    cmd,
+                    spell: rng.next_u64(),
+                });
+            }
+        } else if !sites.is_empty() {
+            let special: Vec<u16> = sites.iter().filter(|s| s.1).map(|s| s.0).collect();
+            let addr = if !special.is_empty() && rng.chance(2, 3) { *rng.pick(&special) } else { rng.pick(&sites).0 };
+            for cmd in [Cmd::BreakAdd(Loc::Abs(addr as i64)), Cmd::Continue, Cmd::Step] {
+                items.push(Item {
+                    cmd,
+                    spell: rng.next_u64(),
+                });
+            }
+        }
+    }
     if mix.eval > 0 && mix.mv > 0 && mix.goto > 0 && !ctx.labels.is_empty() && rng.chance(1, 10) {
         // The instruction under the PC replaced, by an evaluated store, with a HALT (or with a
         // subroutine call): whatever the debugger remembers about that address is stale now
